@@ -203,38 +203,42 @@ func (c *Config) Parent() *Config {
 
 // FlattenedKeys return a sorted flattened views of the set keys in the configuration
 func (c *Config) FlattenedKeys(opts ...Option) []string {
-	var keys []string
 	normalizedOptions := makeOptions(opts)
-
 	if normalizedOptions.pathSep == "" {
 		normalizedOptions.pathSep = "."
 	}
 
+	return c.flattenedKeys(normalizedOptions)
+}
+
+// flattenedKeys collects the keys of c and its children. All children are
+// processed using the same options, with the references resolved on the way
+// to a child being tracked as active. This ensures that a cyclic reference is
+// detected and reported as a key, instead of being followed forever.
+func (c *Config) flattenedKeys(opts *options) []string {
+	var keys []string
+
+	collect := func(v value) {
+		defer opts.scopeActiveFields()()
+
+		subcfg, err := v.toConfig(opts)
+		if err != nil {
+			ctx := v.Context()
+			p := ctx.path(opts.pathSep)
+			keys = append(keys, p)
+		} else {
+			newKeys := subcfg.flattenedKeys(opts)
+			keys = append(keys, newKeys...)
+		}
+	}
+
 	if c.IsDict() {
 		for _, v := range c.fields.dict() {
-
-			subcfg, err := v.toConfig(normalizedOptions)
-			if err != nil {
-				ctx := v.Context()
-				p := ctx.path(normalizedOptions.pathSep)
-				keys = append(keys, p)
-			} else {
-				newKeys := subcfg.FlattenedKeys(opts...)
-				keys = append(keys, newKeys...)
-			}
+			collect(v)
 		}
 	} else if c.IsArray() {
 		for _, a := range c.fields.array() {
-			scfg, err := a.toConfig(normalizedOptions)
-
-			if err != nil {
-				ctx := a.Context()
-				p := ctx.path(normalizedOptions.pathSep)
-				keys = append(keys, p)
-			} else {
-				newKeys := scfg.FlattenedKeys(opts...)
-				keys = append(keys, newKeys...)
-			}
+			collect(a)
 		}
 	}
 
